@@ -150,8 +150,16 @@ fn case(h: &H, idx: u64, kind: u64, rng: &mut Rng) {
             }
             let Some(inst) = catalog::instance(projname, rng) else { return };
             let sz = catalog::size(&inst.ell);
-            let l = param(&inst.def, key).unwrap_or(0.0);
-            let moved = with(&inst.def, key, &num(l));
+            let mut l = param(&inst.def, key).unwrap_or(0.0);
+            let mut ltext = num(l);
+            if projname == "merc" && rng.chance(0.5) {
+                // (merc has the whole globe for its domain: any central meridian will do)
+                let (d0, m, s) = (if rng.chance(0.6) { 0 } else { rng.int(1, 40) }, rng.int(0, 59), rng.int(0, 59));
+                let neg = rng.chance(0.6);
+                l = (d0 as f64 + m as f64 / 60.0 + s as f64 / 3600.0) * if neg { -1.0 } else { 1.0 };
+                ltext = format!("{}{d0}:{m}:{s}", if neg { "-" } else { "" });
+            }
+            let moved = with(&inst.def, key, &ltext);
             let zero = with(&inst.def, key, "0");
             let (Some(a), Some(b)) = (pr.op(&moved), pr.op(&zero)) else { return };
             h.class(&format!("lon_0/{projname}"));
